@@ -200,6 +200,12 @@ def case_full(case):
                            "update_expressions": {k: str(v) for k, v in s.get("update_expressions", {}).items()},
                            "propagators": {k: str(v) for k, v in s.get("propagators", {}).items()},
                            "initial_values": dict(s.get("initial_values", {})), "parameters": s.get("parameters")} for s in res]
+    if "solvers" in out and case.get("check_flow"):
+        try:
+            hs = indict.get("options", {}).get("output_timestep_symbol", "__h")
+            out["flow_check"] = analytic_flow_check(indict, marker, out["solvers"], case.get("pt_seed", 1), hsym=hs)
+        except Exception as e:
+            out["flow_check_error"] = type(e).__name__ + ": " + str(e)[:200]
     if "solvers" in out and case.get("check_numeric_rhs", True):
         try:
             out["numeric_check"] = numeric_rhs_check(indict, marker, out["solvers"], case.get("pt_seed", 1))
@@ -270,3 +276,173 @@ def numeric_rhs_check(indict, marker, solvers, seed):
                 rows.append({"var": v, "kind": kind, "got": None if got is None else numeval.fs(got), "want": None if want is None else numeval.fs(want),
                              "expr": s["update_expressions"][v][:200]})
     return rows
+
+
+def analytic_flow_check(indict, marker, solvers, seed, hsym="__h"):
+    """End-to-end oracle on the returned dictionary only: with the propagators substituted, the update map u(h, x)
+    must satisfy u(0,x)=x, du/dh = user_rhs(u), u(h1+h2,x) = u(h2,u(h1,x)) -- checked at random points with 40 digits."""
+    import random
+    import sympy
+    from harness.core import numeval, refsol, truthcheck
+    out = {"checked": 0, "problems": []}
+    ana = [s for s in solvers if s["solver"] == "analytical"]
+    if not ana:
+        return out
+    s = ana[0]
+    ps = truthcheck.parse_system(indict, marker)
+    h = sympy.Symbol(hsym)
+    props = {sympy.Symbol(k): refsol.parse(v, marker) for k, v in s["propagators"].items()}
+    upd = {v: refsol.parse(e, marker).subs(props) for v, e in s["update_expressions"].items()}
+    svars = s["state_variables"]
+    if any(v not in ps["rhs"] for v in svars):
+        out["skipped"] = "function-of-time variable in the analytic solver (covered by C05)"
+        return out
+    xs = [sympy.Symbol(v) for v in svars]
+    rng = random.Random(seed + 5)
+    syms = set()
+    for e in upd.values():
+        syms |= e.free_symbols
+    for v in svars:
+        syms |= ps["rhs"][v].free_symbols
+    syms -= {h}
+    dupd = {v: sympy.diff(e, h) for v, e in upd.items()}
+    for trial in range(3):
+        pt = numeval.make_point(syms, rng)
+        # keep time constants positive and moderate so exponentials stay in range
+        for k in list(pt):
+            if str(k) not in svars:
+                pt[k] = abs(pt[k])
+        h1 = sympy.Rational(rng.randint(1, 30), 40)
+        h2 = sympy.Rational(rng.randint(1, 30), 40)
+
+        def U(hv, state):
+            d = dict(pt)
+            d.update(state)
+            d[h] = hv
+            return {v: sympy.N(upd[v].subs(d), 45) for v in svars}
+        st0 = {x: pt[x] for x in xs}
+        out["checked"] += 1
+        try:
+            u0 = U(0, st0)
+            for v, x in zip(svars, xs):
+                if abs(u0[v] - pt[x]) > sympy.Float("1e-11") * (1 + abs(pt[x])):
+                    out["problems"].append({"law": "identity at h=0", "variable": v, "got": str(u0[v]), "want": str(pt[x])})
+            u1 = U(h1, st0)
+            d = dict(pt)
+            d[h] = h1
+            for v in svars:
+                lhs = sympy.N(dupd[v].subs(d), 45)
+                st = dict(pt)
+                st.update({x: u1[w] for w, x in zip(svars, xs)})
+                rhs = sympy.N(ps["rhs"][v].subs(st), 45)
+                if abs(lhs - rhs) > sympy.Float("1e-11") * (1 + abs(rhs)):
+                    out["problems"].append({"law": "d/dh update = rhs(updated state)", "variable": v, "got": str(lhs), "want": str(rhs), "h": str(h1)})
+            u12 = U(h1 + h2, st0)
+            u2 = U(h2, {x: u1[w] for w, x in zip(svars, xs)})
+            for v in svars:
+                if abs(u12[v] - u2[v]) > sympy.Float("1e-11") * (1 + abs(u12[v])):
+                    out["problems"].append({"law": "step(h1) then step(h2) = step(h1+h2)", "variable": v, "got": str(u2[v]), "want": str(u12[v])})
+        except Exception as e:
+            out.setdefault("eval_errors", []).append(type(e).__name__ + ": " + str(e)[:120])
+        if out["problems"]:
+            out["point"] = {str(k): str(v) for k, v in pt.items()}
+            out["h1"], out["h2"] = str(h1), str(h2)
+            break
+    return out
+
+
+def _asm_error_kind(msg):
+    if "nonlinear part should be zero" in msg:
+        return "nonlinear"
+    if "higher-order inhomogeneous" in msg:
+        return "higher-order-inhomogeneous"
+    if "depends on the inhomogeneous ODE" in msg:
+        return "depends-on-inhomogeneous"
+    if "imaginary unit" in msg:
+        return "imaginary"
+    return "other:" + msg[:60]
+
+
+def case_assembly(case):
+    """generate_propagator_solver on (a) the analytic sub-system the analysis chose, or (b) when case['direct'] is set,
+    on the sub-system of *all* variables whose shape passed the linear test (bypassing the demotion rules, to reach the
+    guards of the assembly).  Returns the model payloads for ops `components` / `assemble` and the real outcomes."""
+    import random
+    import sympy
+    from harness.core import numeval, refsol, trace
+    from odetoolbox.sympy_helpers import _is_zero
+    from odetoolbox.system_of_shapes import PropagatorGenerationException
+    indict = case["indict"]
+    marker = indict.get("options", {}).get("differential_order_symbol", "__d")
+    hs = indict.get("options", {}).get("output_timestep_symbol", "__h")
+    out = {"marker": marker}
+    tb.reset_config()
+    tr = {}
+    with trace.tracing(tr):
+        try:
+            import json
+            import odetoolbox
+            if case.get("direct"):
+                ind = json.loads(json.dumps(indict))
+                odetoolbox._read_global_config(ind)
+                params = {sympy.Symbol(k): v for k, v in ind.get("parameters", {}).items()} if "parameters" in ind else None
+                shapes, params = odetoolbox._from_json_to_shapes(ind, parameters=params)
+                shape_sys = odetoolbox.SystemOfShapes.from_shapes(shapes, parameters=params)
+                E = shape_sys.get_dependency_edges()
+                lin = shape_sys.get_lin_cc_symbols(E, parameters=params)
+                syms = [s for s, ok in lin.items() if ok]
+                if not syms:
+                    return {"skip": "no linear variable"}
+                sub = shape_sys.get_sub_system(syms)
+                solver = sub.generate_propagator_solver()
+            else:
+                res, shape_sys, shapes = odetoolbox._analysis(json.loads(json.dumps(indict)), disable_stiffness_check=True)
+                ana = [s for s in res if s["solver"] == "analytical"]
+                if not ana:
+                    return {"skip": "no analytic solver"}
+                solver = ana[0]
+            out["solver"] = {"update_expressions": {k: str(v) for k, v in solver["update_expressions"].items()},
+                             "propagators": {k: str(v) for k, v in solver["propagators"].items()}, "state_variables": list(solver["state_variables"])}
+        except PropagatorGenerationException as e:
+            out["asm_error"] = _asm_error_kind(str(e))
+        except BaseException as e:
+            out["error"] = {"type": type(e).__name__, "msg": str(e)[:200]}
+    if "components" in tr:
+        out["components"] = {"payload": {"n": len(tr["components_input_nz"]), "A": [["1" if v else "0" for v in row] for row in tr["components_input_nz"]]},
+                             "real": tr["components"]}
+    pin = tr.get("propagator_input")
+    if pin is None or ("solver" not in out and "asm_error" not in out):
+        return out
+    x = pin["x"]
+    n = len(x)
+    rng = random.Random(case.get("pt_seed", 1))
+    A, b, c = pin["A"], pin["b"], pin["c"]
+    syms = set(A.free_symbols) | set(b.free_symbols) | {sympy.Symbol(v) for v in x}
+    pt = numeval.make_point(syms, rng)
+    h = sympy.Symbol(hs)
+    pt[h] = sympy.Rational(rng.randint(1, 20), rng.randint(1, 7))
+    P = tr.get("P")
+    if P is None:
+        return out
+    pnz = [[not _is_zero(P[i, j]) for j in range(n)] for i in range(n)]
+    Pv = [[sympy.Rational(rng.randint(-30, 30), rng.randint(1, 7)) if pnz[i][j] else sympy.Integer(0) for j in range(n)] for i in range(n)]
+    vals = {"A": [[numeval.val(A[i, j], pt) for j in range(n)] for i in range(n)], "b": [numeval.val(b[i], pt) for i in range(n)]}
+    if any(v is None for row in vals["A"] for v in row) or any(v is None for v in vals["b"]):
+        return out
+    payload = {"n": n, "A": [[numeval.fs(v) for v in row] for row in vals["A"]], "b": [numeval.fs(v) for v in vals["b"]],
+               "x": [numeval.fs(numeval.val(sympy.Symbol(v), pt)) for v in x], "h": numeval.fs(numeval.val(h, pt)),
+               "P": [[numeval.fs(numeval.val(v, {})) for v in row] for row in Pv], "Pnz": pnz,
+               "cnz": [not _is_zero(c[i]) for i in range(n)], "order": pin["order"]}
+    out["assemble"] = {"payload": payload, "x": x}
+    if "solver" in out:
+        ptP = dict(pt)
+        for i in range(n):
+            for j in range(n):
+                ptP[sympy.Symbol("__P__%s__%s" % (x[i], x[j]))] = Pv[i][j]
+        vals_real = []
+        for v in x:
+            e = refsol.parse(out["solver"]["update_expressions"][v], marker)
+            vals_real.append((lambda f: None if f is None else numeval.fs(f))(numeval.val(e, ptP)))
+        out["assemble"]["real_values"] = vals_real
+        out["assemble"]["real_pnz_from_keys"] = [["__P__%s__%s" % (x[i], x[j]) in out["solver"]["propagators"] for j in range(n)] for i in range(n)]
+    return out
